@@ -280,6 +280,7 @@ def check(facts, rep, tier, cfg):
     import whomay
     whomay.check(facts, rep, "C07.S7", "C07")
     whomay.check_new_statics(facts, rep, "C07.S7", "C07")
+    whomay.check_new_trait_methods(facts, rep, "C07.S7", "C07")
 
 
 def rules_establish_ok(facts, b, tr, site):
